@@ -106,8 +106,12 @@ def generate(rs: int, tier: str, index: int) -> dict:
     if ch.chance(0.03):
         # powers whose exponent cannot be represented at all (a*n beyond the code point range, up to beyond 2**32): must raise
         e, n = ch.choice([65536, 65537, 70000, 131072, 1000, 1100000]), ch.choice([4099, 2053, 1031, 4099])  # (every unit of n costs one multiplication)
+        if ch.sub("wrap").chance(0.5):
+            # a product of exponent and power beyond 2**32: the chain of multiplications stops with an error at its
+            # second step (the key character no longer exists), so a large n costs nothing
+            e, n = ch.sub("wrap").choice([1100000, 1050000, 700001, 600000]), ch.sub("wrap").choice([4099, 8209, 65537, 7159])
         return {"property": ID, "run_seed": rs, "tier": tier, "prelude": prelude.gen_prelude(core.Chooser(rs, "prelude")),
-                "steps": [{"id": 0, "k": "journey", "names": [ch.choice(["q0", "q3"])], "start": {"exponents": [[e]], "coefficients": [ch.choice([1, 2, -3])]},
+                "steps": [{"id": 0, "k": "journey", "names": [ch.choice(["q0", "q3"])], "start": {"exponents": [[e]], "coefficients": [ch.choice([1, 1, -1, 2])]},
                            "stages": [{"stage": "pow", "n": n, "observe": False}]}]}
     nv = ch.weighted([(3, 1), (3, 2), (3, 3), (1, 4), (1, 5)])
     names = model.gen_names(ch.sub("n"), nv, nv)
